@@ -40,7 +40,7 @@ structure DataInfo where
 
 inductive WErr
   | player (e : PErr)
-  | noteRange | drumMissing | subMissing | platformMissing | platformBad | insMissing | insType
+  | noteRange | drumNoteInLoop | drumMissing | subMissing | platformMissing | platformBad | insMissing | insType
   | macroMissing | pitchMissing
   | fuel
   deriving DecidableEq, Repr
@@ -124,7 +124,9 @@ def hook (song : Song) (d : DataInfo) : Nat â†’ Conv â†’ WState â†’ TraceItem â†
         | .ok (c, param) =>
           let param := if param < 0 then 0 else param
           if w.inDrum then
-            if param > 255 then .error .noteRange
+            -- the note ends the routine: inside a `[]` loop that would leave the loop open (D25)
+            if it.topLoop then .error .drumNoteInLoop
+            else if param > 255 then .error .noteRange
             else .ok (c, { (push w mds_DMFINISH param) with disabled := true })
           else if param â‰¥ (mds_SLR - mds_NOTE : Nat) then .error .noteRange
           else .ok (c, push w (mds_NOTE + param.toNat) it.on)
